@@ -1,0 +1,38 @@
+//go:build verif
+
+package tcplistener
+
+// VerifReader exposes the unexported multiLineReader to the verification harness (build tag "verif" only).
+type VerifReader struct {
+	mlr     *multiLineReader
+	pending []byte
+}
+
+// NewVerifReader creates a multiLineReader whose input is fed through Read
+func NewVerifReader(test func(s []byte) bool, minBufferSize, softRecordLimit int, consume func(s []byte)) *VerifReader {
+	vr := &VerifReader{}
+	vr.mlr = newMultiLineReader(func(p []byte) (int, error) {
+		n := copy(p, vr.pending)
+		vr.pending = vr.pending[n:]
+		return n, nil
+	}, test, minBufferSize, softRecordLimit, consume)
+	return vr
+}
+
+// Read makes the given bytes available to the reader and calls multiLineReader.Read once; returns the unread remainder
+func (vr *VerifReader) Read(fragment []byte) []byte {
+	vr.pending = fragment
+	_ = vr.mlr.Read()
+	return vr.pending
+}
+
+// Flush calls multiLineReader.Flush
+func (vr *VerifReader) Flush() { vr.mlr.Flush() }
+
+// FlushAll calls multiLineReader.FlushAll
+func (vr *VerifReader) FlushAll() { vr.mlr.FlushAll() }
+
+// Offsets returns (offsetSearch, offsetAppend, len(buffer))
+func (vr *VerifReader) Offsets() (int, int, int) {
+	return vr.mlr.offsetSearch, vr.mlr.offsetAppend, len(vr.mlr.buffer)
+}
